@@ -133,9 +133,19 @@ def check_string(s, ctx=None, slow_s=5.0):
     rep = {'input': s if len(s) <= 200 else {'template': s[:40], 'len': len(s)}}
     ref = rm.ref_decode_body(s)
     t0 = time.perf_counter()
+    from vk import watchdog
+    if watchdog.STATE['tripped']:
+        return          # a decode already failed to return in this process: stop exploring
     try:
-        dec = payload.Payload(encoded_payload=s)
+        watchdog.arm(60)
+        try:
+            dec = payload.Payload(encoded_payload=s)
+        finally:
+            watchdog.disarm()
         raised = None
+    except watchdog.BusyLoop:
+        raise V('decode-too-slow', 'len=%d|no-return' % len(s),
+                'decoding did not return within 60 s of wall-clock time', rep)
     except Exception as e:          # noqa  (BaseException = crash, propagates as harness error)
         dec, raised = None, e
     dt = time.perf_counter() - t0
